@@ -21,6 +21,7 @@ set_option linter.unusedSectionVars false
 set_option linter.unusedVariables false
 
 variable {F : Type}
+variable {fa : List (Nat × Nat)}
 
 /-! ## 1. A gated link's quality cache is not refreshed -/
 
@@ -102,7 +103,7 @@ theorem runSelect_gated_cache (s : Sys F) (now j : Nat) (l m : FLink F) (hl : s.
   exact selectIdx_gated_cache _ _ _ _ j l.toSLink b hl' hb hg
 
 theorem fwdLink_qual (l : FLink F) (pkt : Link.Bytes) (seq : Option Nat) (now : Nat) (fn : List Nat) :
-    (Hk.fwdLink l pkt seq now fn).1.qualMult = l.qualMult ∧ (Hk.fwdLink l pkt seq now fn).1.qualAt = l.qualAt := by
+    (Hk.fwdLink fa l pkt seq now fn).1.qualMult = l.qualMult ∧ (Hk.fwdLink fa l pkt seq now fn).1.qualAt = l.qualAt := by
   have hq : ∀ x : FLink F, (x.takeBatch now).1.qualMult = x.qualMult ∧ (x.takeBatch now).1.qualAt = x.qualAt := by
     intro x
     rw [Hk.takeBatch_eq]
@@ -117,7 +118,7 @@ theorem fwdLink_qual (l : FLink F) (pkt : Link.Bytes) (seq : Option Nat) (now : 
   · exact ⟨rfl, rfl⟩
 
 theorem probeLink_qual (l : FLink F) (pkt : Link.Bytes) (seq : Option Nat) (now : Nat) (fn : List Nat) :
-    (Hk.probeLink l pkt seq now fn).1.qualMult = l.qualMult ∧ (Hk.probeLink l pkt seq now fn).1.qualAt = l.qualAt := by
+    (Hk.probeLink fa l pkt seq now fn).1.qualMult = l.qualMult ∧ (Hk.probeLink fa l pkt seq now fn).1.qualAt = l.qualAt := by
   have hp : l.stallProbeDue.1.qualMult = l.qualMult ∧ l.stallProbeDue.1.qualAt = l.qualAt := by
     unfold FLink.stallProbeDue
     dsimp only
